@@ -25,6 +25,8 @@ import BumpProof.Lemmas.CollDrain
 import BumpProof.Lemmas.CollExtract
 import BumpProof.Lemmas.CollRev
 import BumpProof.Lemmas.CollRevPerm
+import BumpProof.Coll.Run
+import BumpProof.Props.C06
 
 namespace C08
 open Coll
@@ -85,6 +87,24 @@ theorem dedup_by_refines (v : Vec) (hv : v.WF) (x : Id) (xs : List Id) (hx : v.a
   rw [hx] at hl
   have := refines_of_eq heq (by simp at hlen hl ⊢; omega)
   simpa using this
+
+/-- `dedup_by_key(key)` with keys `ks` (two per comparison: `key(cur)`, `key(prev)`): as `dedup_by` with the
+    answers `key(cur) == key(prev)` -/
+theorem dedup_by_key_refines (v : Vec) (hv : v.WF) (x : Id) (xs : List Id) (hx : v.abs = x :: xs)
+    (ks : List (Nat × Nat)) (hb : ks.length = xs.length) :
+    ∃ r, dedupByKey [] v (rets (ks.flatMap fun p => [p.1, p.2])) = .ok r ∧
+      r.vec.abs = x :: keptBy (· == 0) xs (ks.map fun p => if p.1 = p.2 then 1 else 0) ∧ r.exit = .ret () := by
+  have hpair : ∀ ks : List (Nat × Nat), pairUp (rets (ks.flatMap fun p => [p.1, p.2])) = rets (ks.map fun p => if p.1 = p.2 then 1 else 0) := by
+    intro ks
+    induction ks with
+    | nil => rfl
+    | cons p ks ih => simp only [List.flatMap_cons, rets, List.map_append, List.map_cons, List.map_nil, List.cons_append, List.nil_append, pairUp]; simp only [rets] at ih; rw [ih]
+  obtain ⟨r, h1, h2, h3, -, -, -⟩ := dedup_by_refines v hv x xs hx (ks.map fun (p : Nat × Nat) => if p.1 = p.2 then 1 else 0) [] (by simpa using hb)
+  have hp := dedupByKey_pair [] v (rets (ks.flatMap fun p => [p.1, p.2]))
+  rw [hpair ks] at hp
+  simp only [List.append_nil] at h1
+  obtain ⟨r', e1, e2, e3⟩ := proj_ok hp h1
+  exact ⟨r', e1, by rw [e2]; exact h2, by rw [e3]; exact h3⟩
 
 /-! ## truncate / clear / pop / remove / swap_remove -/
 
@@ -189,6 +209,46 @@ theorem reserveOne_fixed (env : Env) (v : Vec) (hk : env.kind = .fixed) : roomOn
   simp only [hk]
   split <;> simp <;> omega
 
+/-- `reserve_exact(additional)` on a `BumpVec`: never refused, the buffer is untouched when it fits,
+    otherwise the capacity becomes EXACTLY `len + additional` -/
+theorem reserve_exact_bump (env : Env) (v : Vec) (hv : v.WF) (n : Nat) (hk : env.kind = .bump) :
+    ∃ v', reserveExact env v n = some v' ∧ v'.abs = v.abs ∧ v'.len = v.len ∧
+      (v.len + n ≤ v.cap → v' = v) ∧ (v.len + n > v.cap → v'.cap = v.len + n) := by
+  have ⟨hs, hl⟩ := hv.slots_eq
+  have hcap := hv.len_le_cap
+  unfold reserveExact
+  by_cases h : n > v.cap - v.len
+  · simp only [h, ↓reduceIte, hk]
+    have ⟨g, hc⟩ := growTo_grows hs hl (v.len + n)
+    refine ⟨_, rfl, Vec.WF.abs_eq g.slots (by rw [g.len]; exact hl), g.len, by omega, fun _ => by rw [hc]; omega⟩
+  · simp only [h, ↓reduceIte]
+    exact ⟨v, rfl, rfl, rfl, fun _ => rfl, by omega⟩
+
+/-- `shrink_to_fit`: the contents never change and `len ≤ cap' ≤ cap`; if the allocator gives the block
+    back (`capIn = len`), the capacity is exactly the length, otherwise nothing happens -/
+theorem shrink_to_fit_keeps (env : Env) (v : Vec) (hv : v.WF) :
+    (shrinkToFit env v).abs = v.abs ∧ (shrinkToFit env v).len = v.len ∧ (shrinkToFit env v).WF ∧
+      v.len ≤ (shrinkToFit env v).cap ∧ (shrinkToFit env v).cap ≤ v.cap ∧
+      ((shrinkToFit env v).cap = v.cap ∨ (shrinkToFit env v).cap = v.len) := by
+  have ⟨hs, hl⟩ := hv.slots_eq
+  have hcap := hv.len_le_cap
+  unfold shrinkToFit
+  split
+  · exact ⟨rfl, rfl, hv, hcap, Nat.le_refl _, Or.inl rfl⟩
+  · split
+    · have htk : v.slots.take v.len = I v.abs := by
+        rw [hs, ← hl]; exact List.take_left' (by simp)
+      have hc : ({ v with slots := v.slots.take v.len } : Vec).cap = v.len := by
+        simp [Vec.cap, htk, hl]
+      have hs' : ({ v with slots := v.slots.take v.len } : Vec).slots = I v.abs ++ H (({ v with slots := v.slots.take v.len } : Vec).cap - v.len) := by
+        rw [hc]; simp [htk]
+      have habs : ({ v with slots := v.slots.take v.len } : Vec).abs = v.abs := Vec.WF.abs_eq hs' hl
+      refine ⟨habs, rfl, ⟨⟨v.abs, hs', hl⟩, ?_⟩, by rw [hc]; exact Nat.le_refl _, by rw [hc]; exact hcap, Or.inr hc⟩
+      have := hv.2
+      rw [hv.total_eq] at this
+      simpa [Vec.total, htk] using this
+    · exact ⟨rfl, rfl, hv, hcap, Nat.le_refl _, Or.inl rfl⟩
+
 /-! ## push / insert / extend_from_slice_clone / resize -/
 
 /-- `push`: with room the value is appended; a full `FixedBumpVec` panics and stays as it is -/
@@ -263,6 +323,22 @@ theorem extend_from_slice_clone_refines (env : Env) (v : Vec) (hv : v.WF) (ids :
   have := hc hroom
   obtain ⟨r, h1, h2, h3, h4, h5, -⟩ := refines_of_eq heq (by simp; omega)
   exact ⟨r, h1, h2, h3, h4, h5⟩
+
+/-- `extend_from_within_clone(start..end)`: panics exactly for `start > end` or `end > len` (nothing
+    changes); otherwise the clones (ids `ids`) of the range are appended in order -/
+theorem extend_from_within_clone_refines (env : Env) (v : Vec) (hv : v.WF) (start end_ : Nat) (ids : List Id) (o : List Outcome)
+    (hroom : room env v (end_ - start) = true) (hids : ids.length = end_ - start) :
+    ∃ r, extendFromWithinClone env v start end_ (rets ids ++ o) = .ok r ∧
+      (if start > end_ ∨ end_ > v.len then r.vec.abs = v.abs ∧ r.exit = .panic false
+       else r.vec.abs = v.abs ++ ids ∧ r.exit = .ret () ∧ r.rest = o) := by
+  have ⟨hs, hl⟩ := hv.slots_eq
+  by_cases hr : start > end_ ∨ end_ > v.len
+  · rw [extendFromWithinClone_bad env v start end_ _ hr]
+    exact ⟨_, rfl, by simp [hr]⟩
+  · rw [extendFromWithinClone_eq env v v.abs start end_ _ hs hl (by omega)]
+    rw [← hids] at hroom ⊢
+    obtain ⟨r, h1, h2, h3, h4, _⟩ := extend_from_slice_clone_refines env v hv ids o hroom
+    exact ⟨r, h1, by simp [hr, h2, h3, h4]⟩
 
 /-- `resize(new_len, value)`: shrinking is `truncate`; growing appends `new_len - len - 1` clones and
     then `value` itself -/
@@ -554,6 +630,46 @@ theorem rextendCloneSpec_rets (ids : List Id) : ∀ (xs : List Id) (o : List Out
     simp only [rets] at this
     rw [this]; simp
 
+theorem rev_pop_if_refines (v : Vec) (hv : v.RWF) (b : Nat) (o : List Outcome) :
+    ∃ r, rpopIf v (.ret b :: o) = .ok r ∧
+      (match v.rabs with
+       | [] => r.vec.rabs = [] ∧ r.exit = .ret none
+       | x :: rest => if b ≠ 0 then r.vec.rabs = rest ∧ r.exit = .ret (some x) else r.vec.rabs = x :: rest ∧ r.exit = .ret none) := by
+  have ⟨hs, hl⟩ := hv.slots_eq
+  have hcap := hv.len_le_cap
+  have heq := rpopIf_eq v v.rabs (.ret b :: o) hs hl
+  have hgen : ∀ xs : List Id, (rpopIfSpec xs (.ret b :: o)).final.length ≤ xs.length := by
+    intro xs; unfold rpopIfSpec
+    cases xs with
+    | nil => simp
+    | cons x rest => simp only; split <;> simp
+  have hlen : (rpopIfSpec v.rabs (.ret b :: o)).final.length ≤ v.cap := by
+    have := hgen v.rabs; omega
+  obtain ⟨r, h1, h2, h3, -, -, -⟩ := rrefines_of_eq heq hlen
+  refine ⟨r, h1, ?_⟩
+  rw [h2, h3]; unfold rpopIfSpec
+  cases v.rabs with
+  | nil => simp
+  | cons x rest => simp only; split <;> simp
+
+/-- `resize_with(new_len, f)` on a reverse vector: the produced values are pushed to the front one by one -/
+theorem rev_resize_with_refines (env : Env) (v : Vec) (hv : v.RWF) (newLen : Nat) (ids : List Id) (o : List Outcome)
+    (hnl : newLen > v.len) (hroom : rroom env v (newLen - v.len) = true) (hids : ids.length = newLen - v.len) :
+    ∃ r, rresizeWith env v newLen (rets ids ++ o) = .ok r ∧ r.exit = .ret () ∧ r.vec.rabs = ids.reverse ++ v.rabs := by
+  have ⟨hs, hl⟩ := hv.slots_eq
+  have heq := rresizeWith_eq env v v.rabs newLen (rets ids ++ o) hs hl
+  have ⟨g, hc⟩ := rgrown_grows (env := env) (n := newLen - v.len) hv
+  have := hc hroom
+  have h' : newLen > v.rabs.length := by omega
+  have hn : newLen - v.rabs.length = ids.length := by omega
+  rw [hroom] at heq
+  simp only [hnl, ↓reduceIte, rresizeWithSpec, h', rextendCloneSpecR, hn] at heq
+  have hspec : rextendCloneSpec v.rabs ids.length (rets ids ++ o) = { final := ids.reverse ++ v.rabs, exit := .ret (), rest := o } :=
+    rextendCloneSpec_rets ids v.rabs o
+  rw [hspec] at heq
+  obtain ⟨r, h1, h2, h3, -, -, -⟩ := rrefines_of_eq heq (by simp; omega)
+  exact ⟨r, h1, h3, h2⟩
+
 theorem rev_extend_from_slice_clone_refines (env : Env) (v : Vec) (hv : v.RWF) (ids : List Id) (o : List Outcome)
     (hroom : rroom env v ids.length = true) :
     ∃ r, rextendFromSliceClone env v ids.length (rets ids ++ o) = .ok r ∧ r.vec.rabs = ids.reverse ++ v.rabs ∧
@@ -580,6 +696,95 @@ theorem rev_append_refines (env : Env) (v other : Vec) (hv : v.RWF) (ho : other.
   exact ⟨_, _, heq, by simp [rappendSpec], by rw [ha]; simp [rappendSpec], rfl⟩
 
 /-- non-vacuity: `[1,2,3,4,5].retain(|x| answers 1,0,1,1,0)` on a vector with 2 spare slots -/
+/-! ## histories (`Coll/Run.lean`): every finite sequence of modelled operations refines the same
+   sequence on plain lists -/
+
+/-- one step: the contents afterwards are what the list-level operation gives (for every behaviour of
+    the callbacks, incl. panics and panicking destructors); needs only the shape, not freshness -/
+theorem step_refines (env : Env) (v : Vec) (op : Op) (hv : v.WF) :
+    ∃ v', stepVec env v op = .ok v' ∧ v'.abs = specStep env.bombs v.abs (roomOf env v op) op := by
+  have ⟨hs, hl⟩ := hv.slots_eq
+  have lift : ∀ {α : Type} {res : M (Out α)} {w : Vec} {r : SpecOut α} {e : Exit α} {rest : List Outcome},
+      res = .ok ⟨w.after r, e, rest⟩ → ∃ v', res.map (·.vec) = .ok v' ∧ v'.abs = r.final := by
+    intro α res w r e rest h
+    exact ⟨_, by rw [h]; rfl, after_abs w r⟩
+  cases op with
+  | retain o => exact lift (retain_eq env.bombs v v.abs o hs hl)
+  | dedupBy o => exact lift (dedupBy_eq env.bombs v v.abs o hs hl)
+  | dedupByKey o =>
+    obtain ⟨r', h1, h2, _⟩ := proj_ok (dedupByKey_pair env.bombs v o) (dedupBy_eq env.bombs v v.abs (pairUp o) hs hl)
+    exact ⟨r'.vec, by simp only [stepVec]; rw [h1]; rfl, by rw [h2]; exact after_abs _ _⟩
+  | truncate n => exact lift (truncate_eq env.bombs v v.abs n hs hl)
+  | clear => exact lift (clear_eq env.bombs v v.abs hs hl)
+  | pop => exact lift (pop_eq v v.abs hs hl)
+  | popIf o => exact lift (popIf_eq v v.abs o hs hl)
+  | remove i => exact lift (remove_eq v v.abs i hs hl)
+  | swapRemove i => exact lift (swapRemove_eq v v.abs i hs hl)
+  | push id => exact lift (push_eq env v v.abs id hs hl)
+  | insert i id => exact lift (insert_eq env v v.abs i id hs hl)
+  | extendClone n o => exact lift (extendFromSliceClone_eq env v v.abs n o hs hl)
+  | extendWithin s e o =>
+    by_cases hr : s ≤ e ∧ e ≤ v.len
+    · have hr' : s ≤ e ∧ e ≤ v.abs.length := by omega
+      simp only [stepVec, specStep, roomOf, hr', and_self, ↓reduceIte]
+      rw [extendFromWithinClone_eq env v v.abs s e o hs hl hr]
+      exact lift (extendFromSliceClone_eq env v v.abs (e - s) o hs hl)
+    · have hr' : ¬ (s ≤ e ∧ e ≤ v.abs.length) := by omega
+      simp only [stepVec, specStep, hr', ↓reduceIte]
+      rw [extendFromWithinClone_bad env v s e o (by omega)]
+      exact ⟨v, rfl, rfl⟩
+  | resize n value o => exact lift (resize_eq env v v.abs n value o hs hl)
+  | resizeWith n o => exact lift (resizeWith_eq env v v.abs n o hs hl)
+  | drain s e script fin => exact lift (drain_eq env.bombs v v.abs s e script fin hs hl)
+  | extractIf calls o => exact lift (extractIf_eq v v.abs calls o hs hl)
+  | mapInPlace o => exact lift (mapInPlace_eq env.bombs v v.abs o hs hl)
+
+/-- HISTORY LEVEL: from a well-formed vector, the contents after EVERY finite sequence of modelled
+    operations (ids brought in fresh) are the contents the same sequence produces on a plain list, given
+    the allocation results; the run never faults -/
+theorem history_refines (env : Env) (ops : List Op) : ∀ (v : Vec), v.WF → (v.total ++ insRun env v ops).Nodup →
+    run env v ops = .ok (runD env v ops) ∧
+      (runD env v ops).abs = specRun env.bombs v.abs ops (roomsRun env v ops) := by
+  induction ops with
+  | nil => intro v _ _; simp [run, runD, specRun]
+  | cons op ops ih =>
+    intro v hv hfresh
+    have hsub : (v.total ++ insOf env v op).Nodup := by
+      simp only [insRun] at hfresh
+      rw [← List.append_assoc] at hfresh
+      exact (List.nodup_append.mp hfresh).1
+    obtain ⟨v', hstep, hwf, hp⟩ := C06.step_drops_once env v op hv hsub
+    obtain ⟨v'', hstep', habs⟩ := step_refines env v op hv
+    have hv'' : v'' = v' := by rw [hstep] at hstep'; exact (Except.ok.inj hstep').symm
+    subst hv''
+    have hD : stepD env v op = v'' := by simp [stepD, hstep]
+    simp only [insRun, hD] at hfresh
+    rw [← List.append_assoc] at hfresh
+    have hfresh' : (v''.total ++ insRun env v'' ops).Nodup :=
+      (hp.append_right _).nodup_iff.mpr hfresh
+    obtain ⟨h1, h2⟩ := ih v'' hwf hfresh'
+    simp only [run, runD, roomsRun, specRun, hstep, hD]
+    exact ⟨h1, by rw [h2, habs]⟩
+
+/-- a `BumpVec` never refuses a reservation (allocation failure aborts / is C07's), so its histories
+    refine the list-level run with every reservation granted -/
+theorem roomsRun_bump (env : Env) (hk : env.kind = .bump) (ops : List Op) : ∀ v : Vec,
+    roomsRun env v ops = ops.map fun _ => true := by
+  induction ops with
+  | nil => intro v; rfl
+  | cons op ops ih =>
+    intro v
+    simp only [roomsRun, List.map_cons, ih]
+    congr 1
+    have h1 := reserveOne_bump env v hk
+    unfold roomOne at h1
+    cases op <;> simp [roomOf, h1, reserve_bump env v _ hk]
+
+/-- the lengths never exceed the capacity along a history, and the capacity never shrinks below the length -/
+theorem history_len_le_cap (env : Env) (ops : List Op) (v : Vec) (hv : v.WF)
+    (hfresh : (v.total ++ insRun env v ops).Nodup) : (runD env v ops).len ≤ (runD env v ops).cap :=
+  (C06.history_drops_once env ops v hv hfresh).2.1.len_le_cap
+
 example : ∃ r, retain [] (Vec.mk' [1, 2, 3, 4, 5] 2) (rets [1, 0, 1, 1, 0]) = .ok r ∧ r.vec.abs = [1, 3, 4] ∧ r.vec.cap = 7 :=
   ⟨_, rfl, by decide, by decide⟩
 
